@@ -1,10 +1,10 @@
 (* C03/Props.v — the property theorems, nothing else.
    Model: C03/Model.v (mirrors src/ircdb.py capability algebra, CapabilitySet,
    UserCapabilitySet, checkCapability, _checkCapabilityForUnknownUser).
-   Proofs: Fold.v, CaseInsens.v, Anti.v, Total.v, Reach.v, Spec.v. *)
+   Proofs: Fold.v, CaseInsens.v, Anti.v, Total.v, Reach.v, Spec.v, Chan.v. *)
 From Coq Require Import List NArith Bool.
 Import ListNotations.
-Require Import Base.Wire Base.PyStr C03.Model C03.Fold C03.CaseInsens C03.Anti C03.Total C03.Reach C03.Spec.
+Require Import Base.Wire Base.PyStr C03.Model C03.Fold C03.CaseInsens C03.Anti C03.Total C03.Reach C03.Spec C03.Chan.
 
 (* No exception escapes for a well-formed capability (non-empty, no
    whitespace), whatever the database and the three ignore* flags. *)
@@ -157,3 +157,45 @@ Theorem C03_dom_gives_pair :
   forall c a, dom_cap c = true -> isAntiCapability c = false -> makeAntiCapability c = Ok a -> antipair c a.
 Proof. exact makeAnti_antipair. Qed.
 Print Assumptions C03_dom_gives_pair.
+
+(* The answer does not depend on the case of the CHANNEL part of the asked
+   capability (rfc1459 folding: []\~ are the upper-case forms of {}|^): an
+   instance of C03_case_insensitive, which holds because getChannel looks the
+   name up through str.lower() AND the IrcDict key function ircutils.toLower
+   (C03_unfolded_channel_table_differs: it fails for a table keyed by
+   str.lower() alone). *)
+Theorem C03_channel_case_insensitive :
+  forall d chn chn' x f, fold chn = fold chn' ->
+  checkCapability d (chn ++ COMMA :: x) f = checkCapability d (chn' ++ COMMA :: x) f.
+Proof. exact check_channel_case. Qed.
+Print Assumptions C03_channel_case_insensitive.
+
+(* ... nor on the spelling under which the channel was stored: the table built
+   by any sequence of setChannel calls depends only on the folded names, and a
+   channel stored under one spelling is the one found under every other
+   spelling of the same name. *)
+Theorem C03_stored_channel_case_insensitive :
+  forall sets sets', fold_names sets = fold_names sets' -> chans_of_sets sets = chans_of_sets sets'.
+Proof. exact chans_of_sets_case. Qed.
+Print Assumptions C03_stored_channel_case_insensitive.
+
+Theorem C03_channel_found_under_any_spelling :
+  forall d t n n' c, d_chans d = setChannel t n c -> fold n = fold n' -> getChannel d n' = c.
+Proof. exact getChannel_after_setChannel. Qed.
+Print Assumptions C03_channel_found_under_any_spelling.
+
+(* The mechanism matters: with a channel table keyed by str.lower() only (a
+   plain dict instead of the IrcDict) the channel "#a[" holding -x refuses
+   "#a[,x" but grants "#a{,x" to a stranger, although both names fold to the
+   same string; through the IrcDict both are refused. *)
+Theorem C03_unfolded_channel_table_differs :
+  fold NAME_SQ = fold NAME_CU /\
+  (let d := Db None false (setChannel [] NAME_SQ CHAN_NOX) [] [] true in
+   check_unknown_with getChannel d (NAME_SQ ++ COMMA :: CAP_X) false = Ok false /\
+   check_unknown_with getChannel d (NAME_CU ++ COMMA :: CAP_X) false = Ok false) /\
+  (let d := Db None false (setChannel_plain [] NAME_SQ CHAN_NOX) [] [] true in
+   check_unknown_with getChannel_plain d (NAME_SQ ++ COMMA :: CAP_X) false = Ok false /\
+   check_unknown_with getChannel_plain d (NAME_CU ++ COMMA :: CAP_X) false = Ok true).
+Proof. exact plain_dict_is_case_sensitive. Qed.
+Print Assumptions C03_unfolded_channel_table_differs.
+
